@@ -86,6 +86,11 @@ pub enum IOp {
     /// save_all only
     Save,
     ClearBucket { b: Option<u8> },
+    /// `IndexManager::clear()`: every bucket at once
+    ClearAll,
+    /// `n` distinct sequence keys added to the hot bucket and flushed (in batches of 1000): sets the
+    /// size of the bucket's sorted section exactly
+    FillSorted { n: u32, base: u8 },
     /// `n` repetitions of one basic op (n <= 1500) — fills the 1260-entry update section
     Burst { n: u16, kind: BurstKind, k: u16, base: u8, seed: u32 },
 }
@@ -208,6 +213,7 @@ fn op_strategy() -> impl Strategy<Value = IOp> {
         8 => Just(IOp::Reload),
         1 => Just(IOp::Save),
         2 => prop_oneof![2 => Just(None), 1 => (0u8..16).prop_map(Some)].prop_map(|b| IOp::ClearBucket { b }),
+        1 => Just(IOp::ClearAll),
         7 => (
             prop_oneof![3 => 1200u16..=1500, 2 => 1u16..=1500, 1 => 1255u16..=1265, 1 => 1u16..60],
             burst_kind(), any::<u16>(), 0u8..3, any::<u32>()
@@ -229,6 +235,32 @@ pub fn strategy() -> BoxedStrategy<IndexCase> {
 
 /// Deterministic scenarios around the update-section capacity: one bucket is filled to
 /// CAP-1 / CAP / CAP (+1 refused) un-flushed entries, then every kind of mutation is applied.
+/// The update section of an .idx file starts at the next 64 KiB boundary behind the sorted section
+/// (40 bytes of headers + 18 bytes per entry): sorted sections that end just before, exactly on and
+/// just behind a boundary, with pending updates on top, saved and reloaded.
+pub fn alignment_cases() -> Vec<IndexCase> {
+    let mut v = Vec::new();
+    let pool = vec![PrefixSpec { hot: true, bucket: 0, body: [1, 2, 3, 4, 5, 6, 7, 8], hn: 3 }];
+    // 40 + 18 n = 65536 m  ->  n = 25484 (m = 7); neighbours, and the first boundary crossing (3639/3640)
+    for n in [3_638u32, 3_639, 3_640, 25_483, 25_484, 25_485] {
+        for hot in [0u8, 9] {
+            v.push(IndexCase {
+                hot,
+                pool: pool.clone(),
+                ops: vec![
+                    IOp::FillSorted { n, base: 0 },
+                    IOp::Add { k: 0x8000, alt: false, loc: Loc { id: 3, off: 0x300, size: 30 } },
+                    IOp::Remove { k: 0, alt: false },
+                    IOp::Reload,
+                    IOp::Add { k: 0x8000, alt: true, loc: Loc { id: 4, off: 0x400, size: 40 } },
+                    IOp::Reload,
+                ],
+            });
+        }
+    }
+    v
+}
+
 pub fn boundary_cases() -> Vec<IndexCase> {
     let mut v = Vec::new();
     let l1 = Loc { id: 1, off: 0x100, size: 10 };
@@ -820,6 +852,31 @@ impl<'a> Run<'a> {
                 self.pend_keys.retain(|p| !gone(p));
                 self.sorted_keys.retain(|p| !gone(p));
             }
+            IOp::FillSorted { n, base } => {
+                let n = (*n).min(60_000);
+                for j in 0..n {
+                    let w = format!("{what} step {j}");
+                    self.add(full_key(&seq_prefix(case.hot, *base, j), false), false, burst_loc(0x5151, j), &w)?;
+                    if j % 1000 == 999 {
+                        self.flush_bucket(case.hot & 15, &w)?;
+                    }
+                }
+                self.flush_bucket(case.hot & 15, &what)?;
+            }
+            IOp::ClearAll => {
+                if !self.model.is_empty() {
+                    self.flags.clear_nonempty = true;
+                    self.flags.deleted_since_start = true;
+                }
+                self.mgr.clear();
+                self.model.clear();
+                for bi in 0..16 {
+                    self.pend[bi] = 0;
+                    self.pend_tomb[bi] = false;
+                }
+                self.pend_keys.clear();
+                self.sorted_keys.clear();
+            }
             IOp::Burst { n, kind, k, base, seed } => {
                 let n = (*n).min(1500) as u32;
                 for j in 0..n {
@@ -858,6 +915,8 @@ fn short(op: &IOp) -> String {
         IOp::Reload => "save_all+load_all".into(),
         IOp::Save => "save_all".into(),
         IOp::ClearBucket { .. } => "clear_bucket".into(),
+        IOp::ClearAll => "clear".into(),
+        IOp::FillSorted { n, .. } => format!("fill_sorted({n})"),
         IOp::Burst { n, kind, .. } => format!("burst({n} x {kind:?})"),
     }
 }
